@@ -782,18 +782,21 @@ class RefResolver(object):
                 a URI fragment to resolve within it
         """
 
-        fragment = fragment.lstrip(u"/")
-        parts = unquote(fragment).split(u"/") if fragment else []
+        fragment = unquote(fragment)
+        if not fragment:
+            return document
+        if fragment.startswith(u"/"):
+            fragment = fragment[1:]
 
-        for part in parts:
+        for part in fragment.split(u"/"):
             part = part.replace(u"~1", u"/").replace(u"~0", u"~")
 
-            if isinstance(document, Sequence):
+            if isinstance(document, Sequence) and not isinstance(document, str):
                 # Array indexes should be turned into integers
-                try:
+                if part == u"0" or (
+                    part.isdigit() and part.isascii() and part[0] != u"0"
+                ):
                     part = int(part)
-                except ValueError:
-                    pass
             try:
                 document = document[part]
             except (TypeError, LookupError):
